@@ -18,6 +18,13 @@ import Dashu.Proofs.Mem.Arith
   the public `UBig` operations `+ - * << >>` (all ownership forms) as histories over the same op
   alphabet (`Model/Mem/Arith.lean`), so that the representation invariant after arithmetic is a theorem.
 
+  Round 3: `zeroize` paths (buffer.rs:438, repr.rs:253), div/rem with the divide-and-conquer scratch block,
+  `sqr()`, `from_le/be_bytes`, IBig `+ - *` sign glue; model follows fixes 52b4fc5/ada6bea (`AllocTooMuch` for
+  requests beyond MAX_CAPACITY in `allocate`/`reallocate`); the policy chain is proved from the regenerated text
+  without assuming a closed form; a `NonVacuity` section instantiates every hypothesis on concrete values.
+  NB the `file:line` in theorem names (`unsafe_buffer_rs_209`, …) are those of the pinned snapshot ab05307; the
+  fix commits have since shifted buffer.rs by up to ten lines (209 → 219, 235 → 245, …).
+
   What "partial" means here (DESIGN §8 C17): the theorems decide the ledger facts (bounds, lifetime,
   double free, leak) and the representation invariant.  Rust-level UB that is not a ledger fact
   (aliasing/provenance, validity of `transmute`, alignment, uninitialised reads of `[len, cap)`,
@@ -480,6 +487,19 @@ theorem unsafe_convert_rs_563_695 {r r' : Rep} (h : Rep.asUbig r = some r') :
     r' = r ∧ r'.isNeg = false ∧ Rep.asIbig r = r :=
   ⟨(as_ubig_positive h).1, (as_ubig_positive h).2, rfl⟩
 
+/-- buffer.rs:438 `Buffer::as_full_slice` + `Zeroize for Buffer` (feature `zeroize`): the full-capacity
+    slice is exactly the allocation; afterwards the buffer is empty, same allocation -/
+theorem unsafe_buffer_rs_438_zeroize {b : Buf} (hL : L b.id = some b.cap) (hw : b.Wf mx) :
+    Sat L n (zeroizeBuf b) (BPost mx L n b (fun b' => b'.id = b.id ∧ b'.cap = b.cap ∧ b'.ws = [])) :=
+  zeroizeBuf_sat hL hw
+
+/-- repr.rs:253 `Repr::as_full_slice` + `Zeroize for Repr/UBig/IBig`: the full slice of a heap value is
+    exactly its allocation; afterwards the value is the canonical zero and the buffer was freed once.
+    NOT tied by correspondence (the harness is built without the `zeroize` feature). -/
+theorem unsafe_repr_rs_253_zeroize {r : Rep} (hc : r.Canon mx) (hL : r.Live L) :
+    Sat L n (Rep.zeroize mx r) (fun r' L' _ => Moves L L' n r.own none ∧ r' = Rep.fromWord 0) :=
+  repZeroize_sat hc hL
+
 end Statics
 
 -- ============================================================== shift.rs / primitive.rs
@@ -586,8 +606,136 @@ theorem skeleton_ops_ok (W mx sq : Nat) (f : Form) (a b : List Nat) (byVal : Boo
     (∀ op ∈ ((fragSub W f a b).ops ++ (fragSub W f a b).cleanup).map AOp.toOp, op.Ok mx) ∧
     (∀ op ∈ ((fragMul W sq f a b).ops ++ (fragMul W sq f a b).cleanup).map AOp.toOp, op.Ok mx) ∧
     (∀ op ∈ ((fragDivRem W byVal f a b).ops ++ (fragDivRem W byVal f a b).cleanup).map AOp.toOp, op.Ok mx) ∧
+    (∀ op ∈ ((fragSqr W sq a).ops ++ (fragSqr W sq a).cleanup).map AOp.toOp, op.Ok mx) ∧
+    (∀ op ∈ ((fragFromBytes W k sq).ops ++ (fragFromBytes W k sq).cleanup).map AOp.toOp, op.Ok mx) ∧
     (∀ op ∈ ((fragShl W mx byVal a k).ops ++ (fragShl W mx byVal a k).cleanup).map AOp.toOp, op.Ok mx) ∧
     (∀ op ∈ ((fragShr W byVal a k).ops ++ (fragShr W byVal a k).cleanup).map AOp.toOp, op.Ok mx) :=
-  ⟨AOp.map_ok mx _, AOp.map_ok mx _, AOp.map_ok mx _, AOp.map_ok mx _, AOp.map_ok mx _, AOp.map_ok mx _⟩
+  ⟨AOp.map_ok mx _, AOp.map_ok mx _, AOp.map_ok mx _, AOp.map_ok mx _, AOp.map_ok mx _, AOp.map_ok mx _, AOp.map_ok mx _,
+    AOp.map_ok mx _⟩
 
+-- ============================================================== non-vacuity: concrete instances of every hypothesis
+
+section NonVacuity
+
+/-- a ledger with two live allocations: id 0 (8 words) and id 1 (5 words) -/
+def exL : Ledger := (Ledger.empty.set 0 (some 8)).set 1 (some 5)
+/-- a live 6-word buffer with two high zero words, capacity 8 -/
+def exB : Buf := ⟨0, 8, [1, 2, 3, 4, 0, 0]⟩
+/-- two canonical heap values (4 words in 8, 3 words in 5, negative) and an inline one -/
+def exR0 : Rep := .heap 0 8 [1, 2, 3, 4] false
+def exR1 : Rep := .heap 1 5 [7, 8, 9] true
+def exRi : Rep := .inline 5 0 1 true
+
+theorem exL_below : exL.Below 2 := by
+  intro j hj
+  have h0 : j ≠ 0 := by omega
+  have h1 : j ≠ 1 := by omega
+  simp [exL, Ledger.set, Ledger.empty, h0, h1]
+theorem exB_live : exL exB.id = some exB.cap := by decide
+theorem exB_wf : exB.Wf 1000 := by unfold Buf.Wf Buf.len; decide
+theorem exR0_canon : exR0.Canon 1000 := by
+  refine ⟨by decide, by decide, by decide, ?_, by decide⟩
+  show 8 ≤ maxCompactCapacity 1000 4
+  have := (policy_chain 1000 4 (by decide)); decide
+theorem exR1_canon : exR1.Canon 1000 := by
+  refine ⟨by decide, by decide, by decide, ?_, by decide⟩
+  show 5 ≤ maxCompactCapacity 1000 3
+  decide
+theorem exRi_canon : exRi.Canon 1000 := ⟨Or.inl ⟨rfl, rfl⟩, by intro _ h; cases h.2⟩
+theorem exR0_live : exR0.Live exL := by intro id c h; cases h; decide
+theorem exR1_live : exR1.Live exL := by intro id c h; cases h; decide
+theorem exRi_live : exRi.Live exL := by intro id c h; cases h
+
+-- (d1) from_buffer on a concrete buffer: hypotheses hold, and the result is the 4-word heap value
+example := from_buffer_canonical (mx := 1000) exL_below exB_live exB_wf
+example : (Rep.fromBuffer 1000 exB 2).res.toOption = some (.heap 0 8 [1, 2, 3, 4] false) := by decide +kernel
+
+-- (d2) clone_from: heap ← heap (reuse), heap ← inline, inline ← heap
+example := clone_from_correct (mx := 1000) exL_below exR0_canon exR1_canon exR0_live exR1_live
+  (by intro i c i' c' h h'; cases h; cases h'; decide)
+example := clone_from_correct (mx := 1000) exL_below exR0_canon exRi_canon exR0_live exRi_live
+  (by intro i c i' c' _ h'; cases h')
+example := clone_from_correct (mx := 1000) exL_below exRi_canon exR1_canon exRi_live exR1_live
+  (by intro i c i' c' h; cases h)
+example : (Rep.cloneFrom 1000 exR0 exR1 2).res.toOption = some (.heap 0 8 [7, 8, 9] true) → False := by
+  -- cap 8 > max_compact_capacity(3) = 7: the old buffer is NOT reused but freed and replaced
+  decide +kernel
+example : (Rep.cloneFrom 1000 exR0 exR1 2).res.toOption = some (.heap 2 5 [7, 8, 9] true) := by decide +kernel
+example : (Rep.cloneFrom 1000 exR1 exR0 2).res.toOption = some (.heap 1 5 [1, 2, 3, 4] false) := by decide +kernel  -- reuse
+
+example := clone_correct (mx := 1000) exL_below exR1_canon exR1_live
+example := ones_canonical (W := 64) (mx := 1000) (by decide) 200 exL_below
+example := with_sign_canonical exR1_canon false
+example := capacity_policy 1000 37 (by decide)
+example : ¬ (∀ op ∈ [Op.ensureCapacityExact 0 1001], op.Ok 1000) := by
+  intro h; have := h _ List.mem_cons_self; simp [Op.Ok] at this
+
+-- the per-block obligations: their hypotheses on the concrete buffer / values
+example := unsafe_buffer_rs_111_470 (n := 2) exB_live
+example := unsafe_buffer_rs_148 (n := 2) (c := 20) exB_live
+example := unsafe_buffer_rs_209 (n := 2) (w := 9) exB_live exB_wf
+example := unsafe_buffer_rs_235 (n := 2) (elem := 0) (k := 2) exB_live exB_wf
+example := unsafe_buffer_rs_266 (n := 2) (k := 2) exB_live exB_wf
+example := unsafe_buffer_rs_293 (n := 2) (src := some 1) (ws := [1, 2]) exB_live exB_wf
+  (by intro s hs; cases hs; exact ⟨5, by decide, by decide⟩)
+example := unsafe_buffer_rs_307 (n := 2) exB_live exB_wf
+example := unsafe_buffer_rs_341 (n := 2) (k := 3) exB_live exB_wf
+example := unsafe_buffer_rs_358 (n := 2) exB_live exB_wf
+example := unsafe_buffer_rs_376 (n := 2) (lo := 1) (hi := 2) exB_live exB_wf
+example := unsafe_buffer_rs_391 (n := 2) (src := none) (ws := List.replicate 20 1) exB_live exB_wf
+  (by intro s hs; cases hs)
+example := unsafe_buffer_rs_408 (n := 2) exB_live
+example := unsafe_buffer_rs_440 (n := 2) exB_live exB_wf
+example := unsafe_buffer_rs_456 (n := 2) (b := exB) (src := ⟨1, 5, [7, 8, 9]⟩) exB_live exB_wf (by decide)
+  (by unfold Buf.Wf Buf.len; decide) (by decide)
+example := unsafe_buffer_rs_482_490 (n := 2) exB_live exB_wf
+example := unsafe_buffer_rs_438_zeroize (n := 2) exB_live exB_wf
+example := unsafe_repr_rs_333_433_487 (L := exL) (n := 2) (site := "x") (b := exB) (by decide)
+example := unsafe_repr_rs_356 (n := 2) exR1_canon exR1_live
+example := unsafe_repr_rs_191 (n := 2) exR0_canon exR0_live
+example := unsafe_repr_rs_164_231 (n := 2) exR0_canon exR0_live
+example := unsafe_repr_rs_547 (n := 2) exR1_live
+example := unsafe_repr_rs_504_519 (n := 2) exR1_live
+example := unsafe_repr_rs_209 (n := 2) exR1_canon exR1_live
+example := unsafe_repr_rs_253_zeroize (n := 2) exR1_canon exR1_live
+example := unsafe_repr_rs_new_unchecked exR1 exR1_canon true
+
+-- statics
+theorem exS_wf : StaticWf [1, 2, 3] := ⟨by decide, by decide⟩
+example := static_clone_correct (L := exL) (n := 2) (mx := 1000) (neg := true) exS_wf
+example := static_clone_from_correct (n := 2) (sneg := false) exR0_canon exR0_live exS_wf
+example : (exec 64 1000 [.fromStaticWords 0 [1, 2, 3] true, .repClone 1 0, .repCloneFrom 1 0, .asSlice 0, .drop 0,
+    .drop 1]).res.toBool = true := by decide +kernel
+example : (exec 64 1000 [.fromStaticWords 0 [1, 2, 3] true, .neg 0]).res.toBool = false := by decide +kernel
+
+-- slices (shift.rs / primitive.rs)
+theorem exS_ok : Slice.Ok exL ⟨0, 2, 4⟩ := ⟨8, by decide, by decide⟩
+example := unsafe_shift_rs_57 (n := 2) (debug := false) exS_ok (by decide)
+example := (unsafe_primitive_rs_66 (n := 2) exS_ok).2 (by decide)
+example := (unsafe_primitive_rs_82 (n := 2) exS_ok).2 (by decide)
+example := (unsafe_primitive_rs_96 (n := 2) exS_ok).2 (by decide)
+
+-- bump allocator: a chain u8×3, u64×2, u16×1 in a 64-byte block
+example : Bump.allocateMany (2 ^ 64 - 1) ⟨0, 64⟩ [⟨1, 1, 3⟩, ⟨8, 8, 2⟩, ⟨2, 2, 1⟩] =
+    some ([(0, 3), (8, 24), (24, 26)], ⟨26, 64⟩) := by decide +kernel
+example := bump_slices_disjoint (usz := 2 ^ 64 - 1) [⟨1, 1, 3⟩, ⟨8, 8, 2⟩, ⟨2, 2, 1⟩]
+  (by intro r hr; simp at hr; rcases hr with rfl | rfl | rfl <;> decide)
+  (m := ⟨0, 64⟩) (sls := [(0, 3), (8, 24), (24, 26)]) (fin := ⟨26, 64⟩) (by decide) (by decide +kernel)
+
+-- arithmetic skeletons: `&a + &b` with a carry into a 4th word, then `a - &b` back, as one history
+def exArith : List (List Op ⊕ List AOp) :=
+  [.inl [.fromWords 0 [2 ^ 64 - 1, 2 ^ 64 - 1, 2 ^ 64 - 1], .fromBuffer 0, .fromWords 1 [1], .fromBuffer 1],
+   .inr ((fragAdd 64 .rr [2 ^ 64 - 1, 2 ^ 64 - 1, 2 ^ 64 - 1] [1]).ops)]
+example := arithmetic_histories_keep_invariant (W := 64) (mx := 1000) (by decide) exArith
+  (by intro s hs ops he op hop
+      simp [exArith] at hs
+      rcases hs with rfl | rfl
+      · cases he; simp at hop; rcases hop with rfl | rfl | rfl | rfl <;> trivial
+      · cases he)
+example : (exec 64 1000 (exArith.flatMap fun s => match s with | .inl ops => ops | .inr sk => sk.map AOp.toOp)).res.toBool
+    = true := by decide +kernel
+example : ((exec 64 1000 (exArith.flatMap fun s => match s with | .inl ops => ops | .inr sk => sk.map AOp.toOp)).res.toOption.map
+    fun P => P 2) = some (.rep (.heap 2 5 [0, 0, 0, 1] false)) := by decide +kernel
+
+end NonVacuity
 end Dashu.Props.C17
